@@ -110,7 +110,7 @@ PROPS = {
     ),
     "C06": dict(
         level="exploration",
-        specs=[],
+        specs=["specs.c06_bursts"],
         bounded=["bounded.c06_bursts"],
     ),
     "C01": dict(
